@@ -1184,10 +1184,17 @@ def _oracle_frf(case):
     fails = []
     frq = np.asarray(case["frf_frq"], float)
     frf = np.asarray(case["frf"], float)
+    if case.get("frf_imag") is not None:
+        frf = frf + 1j * np.asarray(case["frf_imag"], float)
     sf = np.asarray(case["srs_frq"], float)
     Q = case["Q"]
     sh = np.asarray(srs.srs_frf(frf, frq, sf, Q), float)
     shq = np.asarray(srs.srs_frf(frf, frq, sf, Q, scale_by_Q_only=True), float)
+    sh_abs = np.asarray(srs.srs_frf(np.abs(frf), frq, sf, Q), float)
+    if sh.shape != sh_abs.shape or np.max(np.abs(sh - sh_abs)) > 1e-12 * max(np.max(np.abs(sh_abs)), 1e-300):
+        fails.append({"family": "srs_frf:not-the-spectrum-of-the-magnitude", "what": "srs_frf(frf) differs from srs_frf(|frf|) "
+                      "(documented: the absolute value is taken before interpolating)", "input": case, "observed": sh.tolist(),
+                      "required": sh_abs.tolist()})
     p_peak = Q * math.sqrt(math.sqrt(1 + 2 / Q ** 2) - 1)
     ff = np.sort(np.hstack((frq, p_peak * sf)))
     keep = np.ones(len(ff), bool)
@@ -1375,7 +1382,15 @@ def search(ctx, hints):
     for i in range(ctx.pick(4, 20)):
         nf = int(rng.integers(2, 30))
         frq = np.sort(rng.uniform(1.0, 500.0, nf)) + np.arange(nf) * 1e-3
-        cases.append({"kind": "frf", "frf_frq": frq.tolist(), "frf": np.abs(rng.standard_normal((nf, int(rng.integers(1, 3))))).tolist(),
+        ncol = int(rng.integers(1, 3))
+        style = ["magnitude", "signed", "complex"][i % 3]
+        re = rng.standard_normal((nf, ncol))
+        im = rng.standard_normal((nf, ncol)) if style == "complex" else None
+        if style == "magnitude":
+            re = np.abs(re)
+        # documented: "uses the absolute value of each column before interpolating"; so a signed or complex FRF (phase changing
+        # from line to line) must give exactly what its magnitude gives, also at analysis frequencies between the FRF lines
+        cases.append({"kind": "frf", "frf_frq": frq.tolist(), "frf": re.tolist(), "frf_imag": None if im is None else im.tolist(),
                       "srs_frq": np.sort(rng.uniform(2.0, 480.0, int(rng.integers(1, 6)))).tolist(),
                       "Q": float(rng.choice([5.0, 10.0, 25.0, 50.0]))})
         F = np.array([20.0, 150.0, 600.0, 2000.0])
